@@ -176,6 +176,27 @@ theorem c16_storecache_on_filestore_remove (deM : Data → Option CMeta) (deD : 
   · exact Or.inr rfl
   · exact Or.inr rfl
 
+/-- **two crashes in a row**: a `remove` that died at any point (`n1`, `cut1`) followed by a `store` that died at any point
+(`n2`, `cut2`) — the store computes its steps from the tree the first crash left.  A fresh reader gets the ORIGINAL entry, a miss, or
+the complete new state; never new data beside the old metadata.  (The theorems above hold from ANY tree, so crashes compose; this is
+the scenario `store-after-crashed-remove` of the harness and the seeded change `C16-10`.) -/
+theorem c16_storecache_on_filestore_two_crashes (deM : Data → Option CMeta) (deD : Str → Data → Option (Option Str))
+    (t : Tree) (p : Key) (b mb : Data) (m : CMeta) (v : Option Str)
+    (hm : deM mb = some m) (hr : m.status = ready) (hv : deD m.typeId b = some v) (n1 cut1 n2 cut2 : Nat) :
+    let t1 := crashAt execT n1 cut1 (removeStepsT t p) t
+    let r := readSC deM deD (crashAt execT n2 cut2 (storeStepsT t1 p b mb) t1) p
+    r = readSC deM deD t p ∨ r = none ∨ r = some { metadata := m, data := v } := by
+  intro t1 r
+  have h1 := c16_storecache_on_filestore_remove deM deD t p n1 cut1
+  have h2 := c16_storecache_on_filestore_store deM deD t1 p b mb m v hm hr hv n2 cut2
+  simp only at h1 h2
+  rcases h2 with h2 | h2 | h2
+  · rcases h1 with h1 | h1
+    · exact Or.inl (h2.trans h1)
+    · exact Or.inr (Or.inl (h2.trans h1))
+  · exact Or.inr (Or.inl h2)
+  · exact Or.inr (Or.inr h2)
+
 theorem c16_storecache_on_filestore_frame (deM : Data → Option CMeta) (deD : Str → Data → Option (Option Str))
     (t : Tree) (p p' : Key) (b mb : Data) (hne : p' ≠ p) (hanc : p' ∉ ancestors p) (n cut : Nat) :
     readSC deM deD (crashAt execT n cut (storeStepsT t p b mb) t) p' = readSC deM deD t p' ∧
@@ -449,4 +470,4 @@ end Liquer.C16
 -- OBLIGATIONS: Liquer.C16.buffered_reads_as_writethrough Liquer.C16.buffered_laws Liquer.C16.protocols_close_before_rename Liquer.C16.protocols_open_undisturbed Liquer.C16.protocols_open_only_temporaries Liquer.C16.c16_unflushed_rename_publishes_empty
 -- OBLIGATIONS: Liquer.C16.c16_filecache_store_buffered Liquer.C16.c16_filecache_storeMeta_buffered Liquer.C16.c16_filecache_remove_buffered Liquer.C16.c16_filecache_frame_buffered
 -- OBLIGATIONS: Liquer.C16.c16_filestore_store_buffered Liquer.C16.c16_filestore_storeMeta_buffered Liquer.C16.c16_filestore_remove_buffered Liquer.C16.c16_filestore_frame_buffered
--- OBLIGATIONS: Liquer.C16.c16_storecache_on_filestore_store_buffered Liquer.C16.c16_storecache_on_filestore_storeMeta_buffered Liquer.C16.c16_storecache_on_filestore_remove_buffered Liquer.C16.c16_storecache_on_filestore_frame_buffered
+-- OBLIGATIONS: Liquer.C16.c16_storecache_on_filestore_store_buffered Liquer.C16.c16_storecache_on_filestore_storeMeta_buffered Liquer.C16.c16_storecache_on_filestore_remove_buffered Liquer.C16.c16_storecache_on_filestore_frame_buffered Liquer.C16.c16_storecache_on_filestore_two_crashes
